@@ -753,5 +753,17 @@ def c01_pickup(ctx):
     from .C01 import pickup as _r
     return _r(ctx)
 
-RULES = [c01_pickup, operand_chain, apply_result, push_before_run, undo_updates, merit, scale_inverse,
+def c01_init_stores(ctx):
+    """shared with C01: constructors keep private, float-typed copies of the
+    coefficient containers they are given (no aliasing of caller lists or of
+    the shared default, no integer tables)"""
+    from .C01 import init_stores as _r
+    return _r(ctx)
+
+def c17_coating_media(ctx):
+    """shared with C17: index variables go through set_index"""
+    from .C17 import coating_media as _r
+    return _r(ctx)
+
+RULES = [c17_coating_media, c01_init_stores, c01_pickup, operand_chain, apply_result, push_before_run, undo_updates, merit, scale_inverse,
          get_set_symmetry, var_dispatch, bounds_units]
